@@ -6,6 +6,8 @@ package simfs
 
 import (
 	"context"
+	"crypto/sha256"
+	"encoding/hex"
 	"io"
 	"os"
 	"path/filepath"
@@ -522,4 +524,21 @@ func SortedKeys[V any](m map[string]V) []string {
 // IsTemp says whether a relative path names a storageos atomic-put temp file.
 func IsTemp(rel string) bool {
 	return strings.HasPrefix(filepath.Base(rel), ".tmp")
+}
+
+// StateHash hashes a directory state; temp files of atomic puts carry a random
+// suffix and are normalised to "<dir>/.tmp*".
+func StateHash(state map[string]string) string {
+	var lines []string
+	for _, k := range SortedKeys(state) {
+		name := k
+		if IsTemp(k) {
+			name = filepath.ToSlash(filepath.Join(filepath.Dir(k), ".tmp*"))
+		}
+		h := sha256.Sum256([]byte(state[k]))
+		lines = append(lines, name+"="+hex.EncodeToString(h[:8]))
+	}
+	sort.Strings(lines)
+	h := sha256.Sum256([]byte(strings.Join(lines, ";")))
+	return hex.EncodeToString(h[:10])
 }
